@@ -114,7 +114,7 @@ def _restore_entity(population, directory):
             list(flattened_roles),
         )
     person_count = len(population.members_entity_id)
-    population.count = max(population.members_entity_id) + 1
+    population.count = len(population.ids)
     return person_count
 
 
